@@ -113,7 +113,7 @@ impl Scenario for Bytes {
     fn runs(&self, tier: Tier) -> u64 {
         match tier {
             Tier::Quick => 400000,
-            Tier::Thorough => 40000000,
+            Tier::Thorough => 14000000,
         }
     }
     fn declare(&self, cov: &mut Cov) {
